@@ -260,3 +260,7 @@ def run(S):
     from checks.C17 import rule_casl, rule_mx
     rule_casl(S)
     rule_mx(S)
+    # lock-protects-field: a link (prev_, parent_) written after its guarding lock was dropped can be left pointing at
+    # a deleted node, on which retry_prev_lock / lock_parent then spin forever (shared with C08)
+    from checks.C08 import rule_mul
+    rule_mul(S, la)
